@@ -141,10 +141,14 @@ class TU:
             rc, o, e, t = sh(cmd, timeout=600)
             if rc != 0: raise ToolLimit('goto-cc failed: ' + (o + e)[-3000:])
             return out
-    def native(self, kind, entry):
+    def native(self, kind, entry, key=None):
         """native executables for translation validation ('lowered': gcc on the lowered C; 'real': g++ on the C++ TU)
         and replay ('replay': g++ with sanitizers on the C++ TU)"""
-        out = os.path.join(self.dir, 'native_%s_%s' % (kind, entry))
+        out = os.path.join(self.dir, 'native_%s_%s%s' % (kind, entry, '' if key is None else '_' + '_'.join(str(k) for k in key)))
+        kdefs = []
+        if key is not None:
+            ks = list(key) + [0] * (8 - len(key))
+            kdefs = ['-DVERIF_KEYS'] + ['-DVERIF_KEYS_%d=%d' % (i, k) for i, k in enumerate(ks)]
         with self.lock:
             if os.path.exists(out): return out
             rt = os.path.join(TOOLS, 'native_rt.cpp')
@@ -154,7 +158,7 @@ class TU:
                 cmd = ['g++', '-O1', '-w', '-DVERIF_ENTRY=' + entry, rt, self.dir + '/t_native.o', '-o', out]
             else:
                 san = ['-fsanitize=address,undefined', '-fno-sanitize-recover=undefined', '-g'] if kind == 'replay' else ['-O1']
-                cmd = ['g++', '-std=c++11', '-w', '-DVERIF_NATIVE', '-DVERIF_ENTRY=' + entry] + san + self.incflags() + self.dflags() + \
+                cmd = ['g++', '-std=c++11', '-w', '-DVERIF_NATIVE', '-DVERIF_ENTRY=' + entry] + kdefs + san + self.incflags() + self.dflags() + \
                       [os.path.join(PROOFS, self.tu), rt, '-o', out]
             rc, o, e, t = sh(cmd, timeout=900)
             if rc != 0: raise ToolLimit('native build (%s) failed: %s' % (kind, e[-3000:]))
@@ -261,6 +265,15 @@ def run_job(job, tu, safety, scratch, want_trace=False, only_props=None):
             r['cmd'] = ' '.join(cmd[:-2] + ['<in.gb> <out.gb> &&'] + ['cbmc', '<out.gb>'] + flags)
         else:
             gb = tu.gb()
+            if job.get('key') is not None:
+                # the case key is linked in as constants ck0..ck7 (folded by CBMC's constant propagation)
+                ks = list(job['key']) + [0] * (8 - len(job['key']))
+                kc = os.path.join(tu.dir, 'key_%s.c' % re.sub(r'[^A-Za-z0-9_.-]', '_', job['id']))
+                open(kc, 'w').write('#include <stdint.h>\n' + ''.join('uint32_t G_ck%d = %dU;\n' % (i, k & 0xffffffff) for i, k in enumerate(ks)))
+                gbk = kc[:-2] + '.gb'
+                rc, o, e, t = sh(['goto-cc', gb, kc, '-o', gbk], timeout=300)
+                if rc != 0: raise ToolLimit('goto-cc (key link) failed: ' + (o + e)[-1500:])
+                gb = gbk
             cbmc = ['cbmc', gb, '--function', entry] + flags
             r['cmd'] = ' '.join(['cbmc', '<lowered.gb>', '--function', entry] + flags)
         if job.get('backend') == 'portfolio':
@@ -300,7 +313,7 @@ def finding_matches(f, job, ob):
 def native_replay(tu, job, ob, outdir):
     """replay the counterexample's input list on the *real* C++ (g++, x86-64, untouched header, ASan+UBSan)"""
     try:
-        exe = tu.native('replay', job['entry'])
+        exe = tu.native('replay', job['entry'], job.get('key'))
     except ToolLimit as e:
         return 'replay-build-failed', str(e)
     inp = os.path.join(outdir, 'inputs.txt')
@@ -342,6 +355,7 @@ def main(argv):
     ap.add_argument('--keep', action='store_true')
     ap.add_argument('--no-tv', action='store_true')
     ap.add_argument('--list', action='store_true')
+    ap.add_argument('--all-props', action='store_true', help='debugging: report failed obligations of every property in the selected jobs')
     a = ap.parse_args(argv)
     prop = a.prop
     seed = int(os.environ.get('VERIF_SEED', '1') or 1)
@@ -412,7 +426,7 @@ def run_check(prop, a, jobs, findings, scratch, seed, t_start):
             if r['error'] != 'TU not built': problems.append('job %s: %s' % (j['id'], r['error']))
             continue
         solver_s += r['times'].get('solver', 0); cbmc_s += r['times'].get('cbmc', 0)
-        mine = [ob for ob in r['obligations'] if prop in ob['props']]
+        mine = [ob for ob in r['obligations'] if prop in ob['props'] or (a.all_props and not set(ob['props']) & {'CANARY', 'UNWIND', 'C11'})]
         can = [ob for ob in r['obligations'] if 'CANARY' in ob['props']]
         unw = [ob for ob in r['obligations'] if 'UNWIND' in ob['props']]
         for ob in can:
@@ -461,7 +475,7 @@ def run_check(prop, a, jobs, findings, scratch, seed, t_start):
                 verdict, txt = native_replay(j['_tu'], j, ob2, tmpd)
             rep = {'property': prop, 'job': j['id'], 'tu': j['tu'], 'defs': j.get('defs'), 'entry': j['entry'], 'obligation': ob['desc'],
                    'obligation_name': ob['name'], 'in_function': ob['function'], 'line': ob['line'],
-                   'inputs': (ob2 or {}).get('inputs'), 'cbmc_cmd': rr['cmd'], 'native_verdict': verdict, 'native_output': txt,
+                   'inputs': (ob2 or {}).get('inputs'), 'key': j.get('key'), 'cbmc_cmd': rr['cmd'], 'native_verdict': verdict, 'native_output': txt,
                    'flavour': j.get('flavour', 'single'), 'hfsm_assert': j.get('hfsm_assert', True)}
             json.dump(rep, open(rpath, 'w'), indent=1)
             tail = '' if verdict.startswith('confirmed') else ' no-failing-input-found'
@@ -531,7 +545,7 @@ def do_replay(path):
         tu = TU(scratch, rep['tu'], rep.get('defs'), True, None, rep.get('flavour', 'single'), rep.get('hfsm_assert', True))
         os.makedirs(tu.dir, exist_ok=True)
         ob = {'desc': rep['obligation'], 'inputs': [tuple(x) for x in (rep.get('inputs') or [])]}
-        verdict, txt = native_replay(tu, {'entry': rep['entry']}, ob, tu.dir)
+        verdict, txt = native_replay(tu, {'entry': rep['entry'], 'key': rep.get('key')}, ob, tu.dir)
         print(txt); print('replay verdict:', verdict)
         return 1 if verdict.startswith('confirmed') else 0
     finally:
